@@ -53,7 +53,9 @@ func (c *Compiler) compileWebSocketEvent(event ast.WebSocketEvent, routePath str
 		code:         make([]byte, 0),
 		symbolTable:  NewGlobalSymbolTable(),
 		labelCounter: 0,
-		optimizer:    c.optimizer,
+		// Same optimization level, but a fact set of its own: what one
+		// handler's body assigns must not be applied to the next handler's.
+		optimizer: NewOptimizer(c.optimizer.level),
 	}
 
 	// Enter WebSocket scope
@@ -80,7 +82,7 @@ func (c *Compiler) compileWebSocketEvent(event ast.WebSocketEvent, routePath str
 	}
 
 	// Optimize event body before compilation
-	optimizedBody := c.optimizer.OptimizeStatements(event.Body)
+	optimizedBody := eventCompiler.optimizer.OptimizeStatements(event.Body)
 
 	// Compile event body
 	for _, stmt := range optimizedBody {
